@@ -168,6 +168,16 @@ func doParse(j *sup.Job, res *sup.Result) ([]*process.Process, []process.Name, *
 		budget = int64(len(j.Text))*8 + 4096
 	}
 	atomic.StoreInt64(&parser.VerifScanBudget, budget)
+	// parsing runs mode inference over the definitions: give it a (generous, polynomial)
+	// logical step budget so that an explosion is an event and not a hang
+	types.VerifResetSteps()
+	tb := j.TypeBudget
+	if tb == 0 {
+		n := int64(len(j.Text))
+		tb = 1000000 + 10*n*n
+	}
+	atomic.StoreInt64(&types.VerifBudget, tb)
+	defer atomic.StoreInt64(&types.VerifBudget, 0)
 	var m0, m1 runtime.MemStats
 	measure := j.Kind == "parse"
 	if measure {
